@@ -134,9 +134,21 @@ def guard_rule(ctx):
     ef = [f for f in tc.fns if f.base == "Element" and f.name == "to_proc_gen" and f.body]
     if ef:
         toks = es.linearize(ef[0].body)
-        fs = [top_tokens(s) for s, m in statements(toks) if top_tokens(s) and top_tokens(s)[0][0] == "lit" and top_tokens(s)[0][1].startswith("F(")]
-        ok = bool(fs) and any(any(t[0] == "call" and t[1] == "lvalue_state_expr" for t in s) for s in fs)
-        obs.append(ob("C06.guard/for-list-tree", ok, ctx.where(ef[0]), "F(...) receives `U?<state of the list>:undefined` as its update-path tree: %s" % ok))
+        raw = [s for s, m in statements(toks) if top_tokens(s) and top_tokens(s)[0][0] == "lit" and top_tokens(s)[0][1].startswith("F(")]
+        # the tree argument is written unconditionally: the call token stands at the top level of the statement, not inside an if/match
+        def uncond(ts):
+            if any(t[0] == "call" and t[1] == "lvalue_state_expr" for t in ts):
+                return True
+            # the static-list arm has no state at all; in the dynamic arm the call is at the arm's top level
+            for t in ts:
+                if t[0] == "match":
+                    dyn = [b for p_, b in t[2] if "Dynamic" in p_]
+                    if dyn and all(any(x[0] == "call" and x[1] == "lvalue_state_expr" for x in b) for b in dyn):
+                        return True
+            return False
+        ok = bool(raw) and all(uncond(s) for s in raw)
+        obs.append(ob("C06.guard/for-list-tree", ok, ctx.where(ef[0]), "F(...) receives `U?<state of the list>:undefined` as its update-path tree for every kind of list expression (written unconditionally): %s" % ok,
+                      witness=None if ok else "wx:for=\"{{ list || [] }}\": surviving items get no item tree, `{{item.x}}` stays stale"))
     return obs
 
 
@@ -336,9 +348,34 @@ def runtime_rule(ctx):
     return obs
 
 
+def dropped_text_rule(ctx):
+    """every piece of update-guard text assembled in a local buffer reaches the output on every path (lib/dyck.py tracks the buffers)"""
+    import dyck
+    ob = ctx.ob
+    tc = ctx.tc
+    fns = [f for f in tc.fns if f.body and f.module[:1] == ["proc_gen"]]
+    A = dyck.Analyzer(tc, fns)
+    for f in fns:
+        A.summary(f)
+    obs = []
+    k = 0
+    for f in fns:
+        bufs = [n["pat"]["name"] for n in sir.walk(f.body) if n.get("k") == "local" and n["pat"].get("k") == "p_ident" and dyck._is_string_new(n.get("init"))]
+        if not bufs:
+            continue
+        k += 1
+        dr = sorted(A.dropped.get(f.qual, []))
+        obs.append(ob("C06.paths/no-dropped-text/%s" % f.qual, not dr, ctx.where(f), "text written into %s is discarded on some path" % dr if dr else "local buffers %s: whatever is written into them is pasted into the output (or returned) on every path" % sorted(set(bufs)),
+                      witness=None if not dr else "<template is=\"t\" data=\"{{ ...obj, b }}\"/>: the `(U.obj)===true||` part of the guard is lost, spread-in fields go stale"))
+    if k < 3:
+        obs.append(ob("C06.floor/buffers", False, "proc_gen/expr.rs", "only %d emitters with local text buffers (floor 3)" % k))
+    return obs
+
+
 def run(ctx):
     obs = runtime_rule(ctx)
     obs += guard_rule(ctx)
     obs += paths_rule(ctx)
     obs += scopes_rule(ctx)
+    obs += dropped_text_rule(ctx)
     return obs
